@@ -2,7 +2,7 @@
    Statements only; proofs are in proofs/P_C15.v.  Model: model/Control.v (compute_sizes,
    ctl_enable_streaming, stream_params) = cameleon/src/u3v/control_handle.rs enable_streaming
    after the fix commits 9f212d6, 03aec4e, 7004d0a. *)
-From Cam Require Import Outcome Bytes Chunks Cmd Ack Control ManifestSpec P_C06 P_C14b P_C15 P_C15b P_C15c.
+From Cam Require Import Outcome Bytes Chunks Cmd Ack Control ControlRun StreamStart ManifestSpec P_C06 P_C14b P_C15 P_C15b P_C15c P_C15d.
 
 (* ---- the size computation ------------------------------------------------------------ *)
 
@@ -231,3 +231,56 @@ Theorem C15_params_readback_nonvacuous :
     stream_params (c', w') = (Ok [56; 64; 65536; 0; 1000; 0], s'').
 Proof. exact readback_example. Qed.
 Print Assumptions C15_params_readback_nonvacuous.
+
+(* ---- histories: the parameters a start puts in force (restarts included) ------------------------------- *)
+
+(* model/StreamStart.v: strm_start = StreamHandle::start_streaming_loop (self.params := from_control(ctrl),
+   the loop gets a clone), strm_stop, w_poke (device memory changes behind the host's back).
+   proofs/P_C15d.v: a history is a list of  HEnable | HDisable | HStart | HStop | HReconf off data  steps on one
+   (ControlHandle, device, StreamHandle) triple; run_hist executes it and carries, as a ghost value, the plan
+   compute_sizes yields for the SIRM contents at the latest enable_streaming that returned Ok (plan_in).
+   hist_inv x last: for some image m of the segment holding the SIRM block, Env m (exactly the device
+   hypotheses of C15_params_readback: block in one segment, bootstrap registers readable and outside the
+   block; plus: the segment holds bytes), the state is a good conforming one over that memory with consistent
+   caches, and when last = Some p the six size registers hold p.
+   hop_ok: a reconfiguration writes bytes into offsets 0..23 of the SIRM only (SI_INFO, SI_CONTROL, the REQUIRED sizes). *)
+
+(* the invariant holds before any step under the hypotheses of C15_params_readback *)
+Theorem C15_history_init : forall pre post b sirm sbrm ucap devcap resp m s h,
+  Env pre post b sirm sbrm ucap devcap resp m -> atg sirm sbrm ucap (blk pre post b m) s ->
+  hist_inv pre post b sirm sbrm ucap devcap resp (s, h) None.
+Proof. exact hist_inv_init. Qed.
+Print Assumptions C15_history_init.
+
+(* every step of every history preserves it *)
+Theorem C15_history_invariant : forall pre post b sirm sbrm ucap devcap resp ops x last,
+  hist_inv pre post b sirm sbrm ucap devcap resp x last -> Forall hop_ok ops ->
+  hist_inv pre post b sirm sbrm ucap devcap resp (fst (run_hist sirm ops x last)) (snd (run_hist sirm ops x last)).
+Proof. exact run_hist_inv. Qed.
+Print Assumptions C15_history_invariant.
+
+(* C15_restart.  For EVERY history of enable / disable / start / stop / reconfigure steps on a conforming
+   device: if the latest successful enable_streaming programmed plan p, a start at that point (the first
+   one or a restart, with or without a reconfiguration in between) returns Ok (or InStreaming when the loop
+   is running), and the parameters the StreamHandle then holds and hands to the receive loop are exactly
+   [leader; trailer; size; count; final1; final2] of p; the invariant continues to hold. *)
+Theorem C15_restart : forall pre post b sirm sbrm ucap devcap resp ops x last x' p r x'',
+  hist_inv pre post b sirm sbrm ucap devcap resp x last -> Forall hop_ok ops ->
+  run_hist sirm ops x last = (x', Some p) -> strm_start x' = (r, x'') ->
+  (r = Ok tt \/ r = Err SE_IN_STREAMING) /\ sh_running (snd x'') = true /\
+  sh_params (snd x'') = [sp_leader p; sp_trailer p; sp_size p; sp_count p; sp_final1 p; sp_final2 p] /\
+  hist_inv pre post b sirm sbrm ucap devcap resp x'' (Some p).
+Proof. exact restart_params. Qed.
+Print Assumptions C15_restart.
+
+(* Not vacuous: on the standard device image the invariant holds initially, and the history
+   enable; start; stop; disable; the camera now asks for payload 300000 and leader 100; enable
+   followed by a start puts the NEW plan in force (104, 64, 65536, 4, 37856, 0), not the first run's. *)
+Theorem C15_restart_nonvacuous :
+  hist_inv [(0, ex_abrm); (65536, ex_sbrm)] [] 131072 131072 65536 1 0 0 ((ex_good_ctl, ex_world), sh_init) None /\
+  exists x' p x'',
+    run_hist 131072 [HEnable; HStart; HStop; HDisable; HReconf 8 (le_bytes 8 300000); HReconf 16 (le_bytes 4 100);
+                     HEnable] ((ex_good_ctl, ex_world), sh_init) None = (x', Some p) /\
+    strm_start x' = (Ok tt, x'') /\ sh_params (snd x'') = [104; 64; 65536; 4; 37856; 0].
+Proof. exact (conj hist_inv_example restart_example). Qed.
+Print Assumptions C15_restart_nonvacuous.
